@@ -141,7 +141,7 @@ pub fn pre_range(kind: Kind) -> u64 {
 /// Healthy clock (with an optional sprinkling of faults) for scenarios whose subject is not the clock.
 pub fn gen_plain_clock(rng: &mut Prng, n: usize) -> ClockSpec {
     let faults = if rng.chance(1, 4) { vec![CF::Stall, CF::ConstDelta] } else { vec![] };
-    let (spec, _) = gen_clock(rng, &ClockCfg { n, faults, rate_per_1000: 4, max_stretch: 4 });
+    let (spec, _) = gen_clock(rng, &ClockCfg { n, faults, rate_per_1000: 4, max_stretch: 4 , long_stuck: false});
     spec
 }
 
